@@ -71,7 +71,7 @@ def _num(tok, st):
         if st["case"] == "mixed":
             s = "0x" + _case(body, "mixed")
     else:
-        s = "%d" % v
+        s = ("%d" % v).rjust(digits, "0") if digits else "%d" % v
         if st["zeros"] == "lead":
             s = "00" + s
     return ("-" if neg else "") + s
